@@ -46,8 +46,12 @@ pub fn io_host_space() -> Vec<StructProg> {
     let mut out = vec![];
     for (i, a) in tys.iter().enumerate() {
         for (j, b) in tys.iter().enumerate() {
-            for variant in 0..3 {
+            for variant in 0..4 {
                 let mut members = vec![Member::located("position", a.clone(), 0), Member::located("uv", b.clone(), 1)];
+                if variant == 3 {
+                    // locations not ascending in declaration order
+                    members = vec![Member::located("scale", Ty::Scalar(f), 2), Member::located("position", a.clone(), 0), Member::located("uv", b.clone(), 1)];
+                }
                 if variant == 1 {
                     members.push(Member::located("colour", Ty::Vec(4, f), 2));
                 }
